@@ -203,3 +203,15 @@ Proof.
     + destruct (chan_label_ok s0 a); [|discriminate].
       apply (with_chan_log _ _ _ _ (capply_delivered _ _) (conj L B) H).
 Qed.
+
+(* induction over runs with the reachability of the source state at hand *)
+Theorem invariant_reachable' (I : st -> Prop) :
+  I init -> (forall s l s', reachable s -> I s -> lstep s l = Some s' -> I s') -> forall s, reachable s -> I s.
+Proof.
+  intros H0 Hs s [ls R]. revert s R.
+  induction ls as [|l ls IH] using rev_ind; intros s R.
+  - cbn in R. inversion R; subst. exact H0.
+  - rewrite run_app in R. destruct (run init ls) as [s1|] eqn:R1; [|discriminate].
+    cbn in R. destruct (lstep s1 l) as [s2|] eqn:L; [|discriminate]. inversion R; subst.
+    eapply Hs; [exists ls; exact R1|apply IH; reflexivity|exact L].
+Qed.
